@@ -12,6 +12,28 @@ def run(rep, tier):
     fam.add_proxy()
     suvfam_scen.extra(fam, "C14")
     fam.run(scenario=suvfam_scen.scenario)
+    rotate_by_matrix(rep)
+
+
+def rotate_by_matrix(rep):
+    """Rotate(U): `exception iff U is not dim x dim, nothing evaluated before it` (call-sequence contract shared with C06)"""
+    import os, re, extract, l2
+    bdir = core.builddir("C14.rotU")
+    ct = extract.instantiate(open(os.path.join(core.VERIF, "contracts", "C06_wrap_l2.c")).read(), rep)
+    q = l2.Query("guard.Rotate_U", ct, ["WHICH=1"], timeout=60, unwind=12, function="SU_vector::Rotate(const gsl_matrix_complex*)", where="src/SUNalg.cpp")
+    r = l2.run_query(q, bdir, [bdir, os.path.join(core.VERIF, "spec")])
+    oid = "C14.L2.guard.Rotate_U"
+    for c in r.cmds:
+        rep.cmd(re.sub(r'/\S*/\.build/\S*?/', '', c))
+    rep.add(oid, q.function, "L2", r.backend or "smt", r.status, r.seconds, q.where, r.detail)
+    if r.status == "failed":
+        path = core.write_replay("C14", oid, dict(obligation=oid, verifier_output=r.detail[:3000], witness=dict(scenario="rotate_matrix_mismatch", seed=core.SEED)))
+        ok = False
+        try:
+            ok = replaylib.run_replay("C14", path, prog="lifecycle")
+        except Exception as ex:
+            rep.notes.append("native replay failed to run: %s" % ex)
+        rep.violation(oid, path, nofail=not ok)
 
 
 def replay(path):
